@@ -636,6 +636,11 @@ runLoop:
 				}
 			}
 			if processedUndecryptablePacket {
+				// The packets that just became decryptable may have acknowledged data (opening the
+				// congestion window) or require an answer: make sure the send loop runs. If nothing else
+				// wakes the connection up (no timer armed, nothing more received), what is queued -
+				// e.g. the client's Finished behind 0-RTT data that filled the window - would never be sent.
+				c.scheduleSending()
 				// if we processed any undecryptable packets, jump to the resetting of the timers directly
 				continue
 			}
